@@ -6,7 +6,8 @@ from concurrent.futures import ThreadPoolExecutor
 ROOT = os.path.dirname(os.path.dirname(os.path.abspath(__file__)))
 REL = {"C01": ["C07", "C15"], "C02": ["C11"], "C05": ["C04"], "C06": ["C12"], "C08": ["C06"], "C11": ["C02"], "C12": ["C06"], "C15": ["C16"], "C16": ["C15"], "C18": ["C12"], "C19": [], "C09": ["C06"], "C07": ["C01"], "C14": ["C09"], "C17": [], "C04": ["C05"]}
 REDO = "--redo-checks" in sys.argv  # re-run demo + checks with the current machinery, keep the suite verdict already obtained
-dirs = sorted(d for d in glob.glob("/tmp/seed_out/C??_?") if os.path.exists(os.path.join(d, "patch.diff")) and (REDO or not os.path.exists(os.path.join(d, "result.json"))))
+SEEDDIR = next((a.split("=", 1)[1] for a in sys.argv if a.startswith("--dir=")), "/tmp/seed_out")
+dirs = sorted(d for d in glob.glob(SEEDDIR + "/C??_?") if os.path.exists(os.path.join(d, "patch.diff")) and (REDO or not os.path.exists(os.path.join(d, "result.json"))))
 def ev(d):
     prop = os.path.basename(d)[:3]
     props = ",".join([prop] + REL.get(prop, []))
